@@ -6,6 +6,7 @@ import (
 	"fmt"
 	"io/ioutil"
 	"os"
+	"strings"
 
 	cli "github.com/jawher/mow.cli"
 )
@@ -31,6 +32,11 @@ type flowResult struct {
 
 type hookPanic struct{ by string }
 
+// hookErr is a panic value that implements error (a library must not treat it differently)
+type hookErr struct{ by string }
+
+func (e *hookErr) Error() string { return "hook error " + e.by }
+
 func hookNames(depth int) []string {
 	var ns []string
 	for l := 0; l <= depth; l++ {
@@ -43,7 +49,7 @@ func hookNames(depth int) []string {
 	return ns
 }
 
-func buildFlowApp(c flowCase, log *[]string, raised map[string]*hookPanic) *cli.Cli {
+func buildFlowApp(c flowCase, log *[]string, raised map[string]interface{}) *cli.Cli {
 	names := hookNames(c.Depth)
 	kindOf := map[string]string{}
 	for i, n := range names {
@@ -64,7 +70,16 @@ func buildFlowApp(c flowCase, log *[]string, raised map[string]*hookPanic) *cli.
 			*log = append(*log, name)
 			switch k {
 			case "panics":
-				v := &hookPanic{name}
+				// the dynamic type of the value varies with the hook: pointer, error, string
+				var v interface{}
+				switch idx % 3 {
+				case 0:
+					v = &hookErr{name}
+				case 1:
+					v = "P:" + name
+				default:
+					v = &hookPanic{name}
+				}
 				raised[name] = v
 				panic(v)
 			case "exits":
@@ -127,11 +142,18 @@ func init() {
 		var log []string
 		restore := cli.VerifSetStreams(ioutil.Discard, ioutil.Discard)
 		defer restore()
-		app := buildFlowApp(c, &log, map[string]*hookPanic{})
+		app := buildFlowApp(c, &log, map[string]interface{}{})
 		defer func() {
 			if v := recover(); v != nil {
-				if hp, ok := v.(*hookPanic); ok {
-					fmt.Println("PANIC " + hp.by)
+				switch x := v.(type) {
+				case *hookPanic:
+					fmt.Println("PANIC " + x.by)
+					os.Exit(99)
+				case *hookErr:
+					fmt.Println("PANIC " + x.by)
+					os.Exit(99)
+				case string:
+					fmt.Println("PANIC " + strings.TrimPrefix(x, "P:"))
 					os.Exit(99)
 				}
 				panic(v)
@@ -152,7 +174,7 @@ func runFlow(c flowCase) (r flowResult) {
 	})
 	defer restoreS()
 	defer restoreE()
-	raised := map[string]*hookPanic{}
+	raised := map[string]interface{}{}
 	app := buildFlowApp(c, &r.Log, raised)
 	func() {
 		defer func() {
@@ -165,6 +187,12 @@ func runFlow(c flowCase) (r flowResult) {
 			case *hookPanic:
 				r.Fin, r.By = "panic", x.by
 				r.Same = raised[x.by] == x
+			case *hookErr:
+				r.Fin, r.By = "panic", x.by
+				r.Same = raised[x.by] == x
+			case string:
+				r.Fin, r.By = "panic", strings.TrimPrefix(x, "P:")
+				r.Same = raised[r.By] == x
 			default:
 				r.Fin, r.By = "panic", fmt.Sprintf("foreign value %v", x)
 			}
